@@ -95,7 +95,9 @@ namespace c09
       Level& lvl = *levels.back();
       auto jac = Solver::new_jacobi_precond(lvl.matrix, lvl.filter);
       auto cs = Solver::new_pcg(lvl.matrix, lvl.filter, jac);
-      cs->set_tol_rel(1e-12); cs->set_tol_abs(1e-300); cs->set_max_iter(2000);
+      // Domain fact (false alarm fixed): feat3's criterion is def <= tol_abs AND (def <= tol_rel*def0 OR def <= tol_abs_low);
+      // tol_abs is an additional requirement, not an alternative - setting it to 1e-300 made PCG iterate to underflow/NaN.
+      cs->set_tol_rel(1e-10); cs->set_max_iter(2000);
       hier->push_level(lvl.matrix, lvl.filter, cs);
     }
     hier->init();
